@@ -1261,6 +1261,13 @@ class PhasedVcfWriter(VcfAugmenter):
                 else:
                     # Unphased
                     self._clear_phase_tag(call, self.tag)
+            if "HS" in record.format:
+                # Samples without a haploid phase set in a record in which another sample has one
+                # would get an empty value instead of "."
+                for call in record.samples.values():
+                    value = call["HS"]
+                    if value is None or all(v is None for v in value):
+                        call["HS"] = None
             if self.tag == "HP":
                 # If HP was added to this record just now, the HP values of the samples that are not
                 # being phased have never been set and would be written as NUL bytes or empty strings
